@@ -97,6 +97,9 @@ class Channel(AsyncIterable, Generic[ST]):
             while True:
                 while buffer:
                     yield buffer.popleft()
+                    # let others run between consecutive buffered messages
+                    if buffer:
+                        await postpone()
                 if self._closed:
                     break
                 await self._notification
